@@ -18,7 +18,9 @@ RULE = ("cases = a set of <= 8 delayed <send>s (delays 0-120 ms written as 'Nms'
         "differ by more than 2G+4 ms are delivered in due order; an event whose cancel executed more than 2G+7 ms before its due time is never "
         "delivered; a racing cancel may go either way but never twice. Forced schedule: the timer thread is parked at the "
         "USCXML_VERIF point between releasing the queue lock and delivering the event while the interpreter thread executes "
-        "the <cancel> for that very event: no crash (use of the freed libevent event), no deadlock, at most one delivery. "
+        "the <cancel> for that very event: no crash (use of the freed libevent event), no deadlock, at most one delivery. Second "
+        "forced schedule: the timer thread is held inside a callback for 10-70 ms and a <send delay> is executed meanwhile - it must "
+        "still wait its full delay (libevent computes deadlines from a cached clock while callbacks run). "
         "non-trivial = >= 3 timers with distinct due times and >= 1 cancel; distinct = hash of the timer/cancel set")
 ASSUMPTIONS = ["only lower bounds on time are asserted; a 30 s watchdog per run signals a deadlock (normal runs: < 0.5 s)",
                "timer granularity G = resolution of CLOCK_MONOTONIC_COARSE (one kernel tick, 4 ms here) + 1 ms: libevent's default "
@@ -36,8 +38,8 @@ G_US = max(G_US, 3000)
 
 def budget(tier):
     if tier == "thorough":
-        return {"cases": 2400, "forced": 600, "min_nontrivial": 800}
-    return {"cases": 640, "forced": 160, "min_nontrivial": 100}
+        return {"cases": 2400, "forced": 600, "busy": 320, "min_nontrivial": 800}
+    return {"cases": 640, "forced": 160, "busy": 48, "min_nontrivial": 100}
 
 
 def render_delay(ms, syntax):
@@ -155,6 +157,34 @@ def check_forced(ctx, timers, engine):
               sample={"timers_ms": timers, "engine": engine, "cancelled_in_window": first, "delivered": sorted(delivered)})
 
 
+STALE_DOC = ('<scxml xmlns="http://www.w3.org/2005/07/scxml" version="1.0" datamodel="null" name="d"><state id="s0" vid="s0"><onentry>'
+             '<send vid="send0" event="t.0" delay="1ms" id="id0"/></onentry><transition event="t" vid="tt"/><transition event="c.0">'
+             '<send vid="send1" event="t.1" delay="%s" id="id1"/></transition></state></scxml>')
+
+
+def check_busy_timer_thread(ctx, delay, held, sx, engine):
+    """a <send delay> executed while the timer thread has been inside a callback for `held` ms must still wait its full delay"""
+    r = call(ctx, "timed", STALE_DOC % render_delay(delay, sx), engine, "", "until=%d park=dq.timer.window parkms=%d arm=1 onpark=c.0 onparkdelay=%d"
+             % (delay + held + 250, held + 150, held))
+    if r.get("exception"):
+        raise Failure("exception", {"exception": r["exception"][:300], "signature": "exception"})
+    tr = r["trace"]
+    sent = [e[-1] for e in tr if e[0] == 'bc' and e[1] == 'send1']
+    got = [e[-1] for e in tr if e[0] == 'ev' and e[1] == 't.1']
+    hit = r.get("park_count", 0) >= 1 and len(sent) == 1
+    if hit:
+        if len(got) > 1:
+            raise Failure("delivered-twice", {"delay_ms": delay, "held_ms": held, "signature": "delivered-twice-busy"})
+        if len(got) == 0:
+            raise Failure("not-delivered", {"delay_ms": delay, "held_ms": held, "signature": "not-delivered-busy"})
+        if got[0] < sent[0] + delay * 1000 - G_US:
+            raise Failure("delivered-early", {"delay_ms": delay, "timer_thread_busy_for_ms": held, "early_by_us": int(sent[0] + delay * 1000 - got[0]),
+                                              "signature": "delivered-early-busy-timer-thread"})
+    ctx.count(harness.h64("busy", json.dumps([delay, held, sx, engine])), hit, ['busy-timer-thread' if hit else 'busy-window-missed'],
+              sample={"delay_ms": delay, "timer_thread_busy_for_ms": held, "engine": engine,
+                      "delivered_ms_after_send": round((got[0] - sent[0]) / 1000.0, 1) if got and sent else None})
+
+
 timers_s = st.lists(st.tuples(st.sampled_from([0, 1, 5, 10, 20, 30, 40, 60, 80, 100, 120]), st.sampled_from(['ms', 'ms', 's', 'none'])), min_size=1, max_size=8)
 cancels_s = st.lists(st.tuples(st.integers(0, 7), st.one_of(st.just('now'), st.sampled_from([0, 5, 15, 25, 35, 50, 70, 90, 110, 130]))), max_size=4)
 
@@ -167,10 +197,16 @@ def shard_main(ctx):
                        p["cases"] // ctx.nshards + 1, lambda t, c, e: {"timers": t, "cancels": c, "engine": e})
     ctx.run_hypothesis([timers_s, st.sampled_from(['large', 'fast'])], lambda t, e: check_forced(ctx, t, e),
                        p["forced"] // ctx.nshards + 1, lambda t, e: {"timers": t, "forced": True, "engine": e}, name="forced")
+    ctx.run_hypothesis([st.sampled_from([30, 60, 100, 150]), st.sampled_from([10, 20, 40, 70]), st.sampled_from(['ms', 's', 'none']), st.sampled_from(['large', 'fast'])],
+                       lambda d, h, sx, e: check_busy_timer_thread(ctx, d, h, sx, e), p["busy"] // ctx.nshards + 1,
+                       lambda d, h, sx, e: {"busy": [d, h, sx, e]}, name="busy")
 
 
 def replay(ctx, case):
     try:
+        if "busy" in case:
+            check_busy_timer_thread(ctx, *case["busy"])
+            return []
         timers = [tuple(x) for x in case["timers"]]
         if case.get("forced"):
             check_forced(ctx, timers, case["engine"])
